@@ -50,6 +50,51 @@ def as_scratch_user():
     return {'user': SCRATCH_UID, 'group': SCRATCH_UID, 'extra_groups': []} if SCRATCH_UID else {}
 
 
+_SCRATCH = {}
+_SCRATCH_LOCK = __import__('threading').Lock()
+
+
+def scratch_root():
+    """a directory the scratch user can reach: the cache of this /verif when it is traversable for that user, otherwise a
+    fresh temporary directory (removed at exit) — e.g. when /verif itself sits under a directory closed to other users"""
+    if 'root' in _SCRATCH:
+        return _SCRATCH['root']
+    os.makedirs(CACHE, exist_ok=True)
+    root = CACHE
+    if SCRATCH_UID:
+        probe = os.path.join(CACHE, 'probe-%d' % os.getpid())
+        os.makedirs(probe, exist_ok=True)
+        os.chmod(probe, 0o777)
+        ok = False
+        try:
+            ok = subprocess.run(['/bin/sh', '-c', 'cd "$0" && : > x && rm x', probe], capture_output=True, timeout=20, **as_scratch_user()).returncode == 0
+        except Exception:
+            ok = False
+        shutil.rmtree(probe, ignore_errors=True)
+        if not ok:
+            import tempfile, atexit
+            root = tempfile.mkdtemp(prefix='hrverif-')
+            os.chmod(root, 0o755)
+            atexit.register(lambda: shutil.rmtree(root, ignore_errors=True))
+    _SCRATCH['root'] = root
+    return root
+
+
+def staged(binary):
+    """the binary at a path the scratch user can execute"""
+    with _SCRATCH_LOCK:
+        root = scratch_root()
+        if root == CACHE:
+            return binary
+        key = ('bin', binary, os.path.getmtime(binary))
+        if key not in _SCRATCH:
+            dst = os.path.join(root, 'bin-%d-%s' % (len(_SCRATCH), os.path.basename(binary)))
+            shutil.copy2(binary, dst)
+            os.chmod(dst, 0o755)
+            _SCRATCH[key] = dst
+        return _SCRATCH[key]
+
+
 def open_up(path):
     try:
         os.chmod(path, 0o777)
@@ -196,7 +241,7 @@ class GoDriver:
 
     def _dirs(self):
         self.n += 1
-        base = os.path.join(CACHE, 'run-%s-%d-%d' % (self.tag, os.getpid(), self.n))
+        base = os.path.join(scratch_root(), 'run-%s-%d-%d' % (self.tag, os.getpid(), self.n))
         home = os.path.join(base, 'home')
         work = os.path.join(base, 'work')
         os.makedirs(home, exist_ok=True)
@@ -213,7 +258,7 @@ class GoDriver:
         while pending:
             lines = [json.dumps(c) for c in pending]
             try:
-                p = subprocess.run(['/bin/sh', '-c', 'ulimit -v 4000000; exec "$0"', self.binary],
+                p = subprocess.run(['/bin/sh', '-c', 'ulimit -v 4000000; exec "$0"', staged(self.binary)],
                                    input=('\n'.join(lines) + '\n').encode(), capture_output=True, env=env, cwd=work, timeout=900, **as_scratch_user())
                 outs = p.stdout.decode('utf-8', 'replace').split('\n')
                 rc = p.returncode
@@ -234,6 +279,8 @@ class GoDriver:
                 answered += 1
             if answered >= len(pending):
                 break
+            if answered == 0 and not res and rc in (126, 127):
+                raise Infra('the Go driver cannot be executed (rc=%d): %s' % (rc, stderr[-300:]))
             # the process died: the first unanswered case is the culprit
             culprit = pending[answered]
             kind = 'timeout' if rc == -9 else 'crash'
@@ -262,7 +309,8 @@ class GoDriver:
 
 def run_real_binary(binary, argv, files, env_extra=None, tz='UTC', stdout_to=None, timeout=20, home_config=None):
     """run the untagged binary as a sub-process in a scratch directory with the given files"""
-    base = os.path.join(CACHE, 'real-%d-%d' % (os.getpid(), int(time.time() * 1e6) % 10**9))
+    base = os.path.join(scratch_root(), 'real-%d-%d' % (os.getpid(), int(time.time() * 1e6) % 10**9))
+    binary = staged(binary)
     home = os.path.join(base, 'home')
     work = os.path.join(base, 'work')
     os.makedirs(home)
